@@ -69,6 +69,11 @@ def _fb(p=None, q=None):
   return (p, q)
 
 
+@gin.configurable('fb', module='m2')
+def _fb_other(p=None, q=None):
+  return (p, q)
+
+
 @gin.configurable('K', module='m1')
 class _K:
 
@@ -257,6 +262,12 @@ def _check(case, nm, skip, labels, tmp):
         labels.add('import-registers-a-name')
       continue
     target = s[2] if s[0] in ('bind', 'block') else None
+    if target == 'fb' and case['mode'] != 'dynamic':
+      # 'fb' matches two configurables (m1.sub.fb, m2.fb): ambiguous is not unknown -- an error,
+      # whatever skip_unknown says
+      labels.add('ambiguous-target')
+      error_expected = True
+      break
     if target in cur_unknown:
       vals = [s[4]] if s[0] == 'bind' else [v for _, v in s[3]]
       if covered(target, skip) and any(
@@ -522,7 +533,8 @@ def strategy(draw):
       cons = 'cons' if mode == 'static' else 'dm.cons'
       stmts.append(['bind', scope, cons, draw(st.sampled_from('xy')), draw(value(2))])
     elif k == 'bind-unknown':
-      stmts.append(['bind', scope, draw(st.sampled_from(unknown)), 'p', draw(value(0))])
+      tgt = draw(st.sampled_from(unknown + (['fb'] if mode == 'static' else [])))
+      stmts.append(['bind', scope, tgt, 'p', draw(value(0))])
     elif k == 'block':
       sel = draw(st.sampled_from(known))
       args = draw(st.lists(st.sampled_from(nm['known'][sel]), min_size=1, max_size=2))
